@@ -98,15 +98,19 @@ func (p *G1Elt) Data() ([]byte, error) {
 
 func (p *G1Elt) Add(a, b kyber.Point) kyber.Point {
 	aa, bb := a.(*G1Elt), b.(*G1Elt)
-	p.inner.Set(&aa.inner)
-	p.inner.AddAssign(&bb.inner)
+	// work on a copy: the receiver may be the second operand
+	r := aa.inner
+	r.AddAssign(&bb.inner)
+	p.inner = r
 	return p
 }
 
 func (p *G1Elt) Sub(a, b kyber.Point) kyber.Point {
 	aa, bb := a.(*G1Elt), b.(*G1Elt)
-	p.inner.Set(&aa.inner)
-	p.inner.SubAssign(&bb.inner)
+	// work on a copy: the receiver may be the second operand
+	r := aa.inner
+	r.SubAssign(&bb.inner)
+	p.inner = r
 	return p
 }
 
